@@ -19,6 +19,8 @@ type Expectation struct {
 	Verdict       ref.Verdict
 	Why           string
 	State         *ref.State // state in force after this operation
+	Prev          *ref.State // state in force before it
+	Tag           string     // distinguishes derived expectations (the same operation anchored at another time) in reports
 }
 
 type didModel struct {
@@ -63,7 +65,7 @@ func (m *ModelTracker) Anchored(rec *AnchoredRec) {
 		m.dids[suffix] = d
 		m.order = append(m.order, suffix)
 	}
-	exp := &Expectation{Rec: rec, State: d.cur}
+	exp := &Expectation{Rec: rec, State: d.cur, Prev: d.cur}
 	d.exps = append(d.exps, exp)
 	if d.stopped {
 		exp.Skipped = true
